@@ -2,7 +2,7 @@ ENGINES = [
     {"name": "csym", "path": "vt/csym.py", "serves_properties": ["C01", "C02", "C03", "C10", "C13", "C14", "C17", "C18"],
      "kind_free_text": "symbolic interpreter of traits/ctraits.c over clang's JSON AST (regenerated from the current source on every run), "
                        "CPython API contracts in vt/capi.py, shared path condition with symx; memory-safety assertions on every path"},
-    {"name": "symx", "path": "vt/symx.py", "serves_properties": ["C01", "C03", "C04", "C05", "C06", "C07", "C09", "C11", "C13", "C15", "C17", "C19", "C20"],
+    {"name": "symx", "path": "vt/symx.py", "serves_properties": ["C01", "C03", "C04", "C05", "C06", "C07", "C08", "C09", "C11", "C13", "C15", "C17", "C19", "C20"],
      "kind_free_text": "symbolic execution of the real Python code on z3-backed proxies (DFS over decision prefixes by re-execution), "
                        "environment models for built-ins (vt/envmodels.py), concrete replay of every counterexample and one witness per path"},
 ]
@@ -212,4 +212,16 @@ CHECKS["C19"] = dict(
     design_ref="DESIGN.md section 4 C19", technique="symbolic execution of the real Python code with z3 (symx) with a symbolic fault index; bounded exploration through the compiled extension for HasTraits-level callbacks",
     note="Part (2): choice feasibility only. Adapter-factory faults are covered by C17's symbolic factory outcomes (None results, not "
          "raising factories). Outside: faults in handlers that mutate notifier lists, threads.")
+CHECKS["C08"] = dict(
+    text="Bounded exploration (through the symbolic explorer) of mutation histories (k=2 quick, 3 thorough) under 8 observed expressions "
+         "(series with '.' and ':', list/dict/set items, two-level paths) on a pool of real nodes with an initial duplicate: reassignment, "
+         "self-cycle, grandchild, list append/insert/del/setitem/insert-duplicate/*=/clear/moved-items/remove with SYMBOLIC positions "
+         "(ListModel classification), dict set/del/identical re-assignment, set add/remove, default reads; then every node ever seen is "
+         "probed. Oracle: independent from-scratch reachability evaluator: handler called exactly once iff the node is currently "
+         "reachable, event identifies object and trait, ':' links silent, container events on notifying links. Plus '*' and '+metadata' "
+         "first-assignment histories (wildcard-resolved and added traits).",
+    design_ref="DESIGN.md section 4 C08", technique="bounded exploration through the symbolic explorer with symbolic list indices; oracle = independent reachability evaluator",
+    note="Callback graphs over heap objects: the solver decides list indices and choice feasibility only; this is an exhaustive bounded "
+         "enumeration and is labelled so. Two known findings (breaking a self-cycle; '*' on a second instance misses a class-cached "
+         "wildcard name). Outside: expressions beyond the 10 listed, pools larger than 3 initial nodes, threads.")
 NOT_APPLICABLE = {p: NOT_BUILT for p in ["C%02d" % i for i in range(1, 21)]}
